@@ -4,7 +4,7 @@ EXTENDS QBFT
 SV == [i \in 1..N |-> IF i = 1 THEN "a" ELSE "b"]
 SVsame == [i \in 1..N |-> "a"]
 NoActs == {}
-AllActs == {"proposal", "prepare", "commit", "rc", "decided"}
+AllActs == {"proposal", "prepare", "commit", "rc", "decided", "subst"}
 LeaderActs == {"proposal", "prepare", "commit"}
 RCActs == {"rc"}
 DecidedActs == {"decided"}
